@@ -28,7 +28,9 @@ assumptions(PROP, [
     "cycles per traversal = number of hystereses of the second (steady-state) pass, guideline eq. 2.6-91; early failure = number of hystereses "
     "completed while the damage sum is still < 1",
     "tables whose running damage sum comes within 1e-9 of exactly 1 are discarded unless the sum is exact (pandas uses compensated summation)",
-    "single assessment point; both passes contain at least one hysteresis; collective has the S_min column the calculator uses for counting",
+    "one or two assessment points (table without index, or MultiIndex with arbitrary ascending integer point labels; every point has the same "
+    "hysteresis pattern, the second point's P values are scaled); both passes contain at least one hysteresis; collective has the S_min "
+    "column the calculator uses for counting; independence of a point from the rest of a batch is C10's subject",
     "P_A for the safety index in [1e-12, 0.5] (RuntimeError tolerated only below 1e-12); load safety: P_A from the guideline's table, other values raise ValueError",
 ])
 
@@ -377,20 +379,33 @@ def _table(draw, tier):
             if P is None:
                 P = PZ * draw(_lg(*span))
             rows.append([P, draw(st.booleans()), run])
-    return {"P_Z": PZ, "P_D": PD, "d_1": d1, "d_2": d2, "rows": rows, "regime": regime}
+    # how the table is indexed: no index at all, or the (hysteresis_index, assessment_point_index) MultiIndex of the docstring with
+    # arbitrary integer labels (node ids); a second point carries the same hystereses with all P scaled
+    layout = draw(st.sampled_from(["no_index", "one_point", "one_point", "two_points"]))
+    label = st.one_of(st.sampled_from([0, 1, 7, 10, 20, 1000003]), st.integers(-5, 60))
+    if layout == "no_index":
+        points = [{"id": None, "scale": 1.0}]
+    elif layout == "one_point":
+        points = [{"id": draw(label), "scale": 1.0}]
+    else:
+        ids = sorted(draw(st.lists(label, min_size=2, max_size=2, unique=True)))
+        points = [{"id": ids[0], "scale": 1.0}, {"id": ids[1], "scale": draw(st.sampled_from([1.0, 0.5, 2.0, 1.25, 0.8]))}]
+    return {"P_Z": PZ, "P_D": PD, "d_1": d1, "d_2": d2, "rows": rows, "regime": regime, "points": points}
 
 
-def _literal(case):
-    """Plain accumulation.  Returns dict(D1, D2, n1, n2, early_index | None, running sums)."""
+def _literal(case, scale=1.0):
+    """Plain accumulation for one assessment point (its P values are the table's times ``scale``)."""
     PZ, d1, d2 = case["P_Z"], case["d_1"], case["d_2"]
-    dam, run = [], []
+    dam, run, Ps = [], [], []
     for P, closed, r in case["rows"]:
+        P = P * scale
         if P == 0.0:
             N = math.inf
         else:
             N = 1e3 * math.pow(P / PZ, 1.0 / (d1 if P >= PZ else d2))
         dam.append((1.0 if closed else 0.5) / N)
         run.append(r)
+        Ps.append(P)
     total, sums = 0.0, []
     for d in dam:
         total += d
@@ -398,47 +413,70 @@ def _literal(case):
     early = next((i for i, s in enumerate(sums) if s >= 1.0), None)
     D1 = math.fsum(d for d, r in zip(dam, run) if r == 1)
     D2 = math.fsum(d for d, r in zip(dam, run) if r == 2)
-    return {"dam": dam, "sums": sums, "early": early, "D1": D1, "D2": D2, "n1": run.count(1), "n2": run.count(2)}
+    return {"P": Ps, "dam": dam, "sums": sums, "early": early, "D1": D1, "D2": D2, "n1": run.count(1), "n2": run.count(2)}
+
+
+def _points(case):
+    """[(label | None, scale)] in the order of the result arrays (ascending label). Saved cases without the key: one point, no index."""
+    pts = case.get("points") or [{"id": None, "scale": 1.0}]
+    return [(q["id"], q["scale"]) for q in pts]
 
 
 @subcheck(PROP, "lifetime_accumulation", strategy=_table, quick=1600, thorough=50000,
           doc="DamageCalculatorPRAM lifetime (traversals, cycles) == literal loop: pass 1 once, pass 2 repeated until the sum reaches 1, "
-              "last pass linear, half hystereses weigh 0.5; early failure = hystereses completed with sum < 1; infinite life iff max P of pass 2 <= P_D")
+              "last pass linear, half hystereses weigh 0.5; early failure = hystereses completed with sum < 1; infinite life iff max P of pass 2 <= P_D; "
+              "table without index, or with a (hysteresis_index, assessment_point_index) MultiIndex whose point labels are arbitrary integers "
+              "(one or two points, each compared with its own literal accumulation)")
 def lifetime_accumulation(case, ctx):
     dp, dc, pc = _imports()
-    lit = _literal(case)
+    pts = _points(case)
+    lits = [_literal(case, sc) for _, sc in pts]
     rows = case["rows"]
     ctx.label(case["regime"])
+    ctx.label("no_index" if pts[0][0] is None else "%d_point_labels_%s" % (len(pts), "0..n-1" if [q[0] for q in pts] == list(range(len(pts))) else "other"))
     # decision stability of the 'sum reaches one' test
-    for s in lit["sums"]:
-        if abs(s - 1.0) < 1e-9 and s != 1.0:
-            ctx.skip("running damage sum within 1e-9 of 1")
+    for lit in lits:
+        for s in lit["sums"]:
+            if abs(s - 1.0) < 1e-9 and s != 1.0:
+                ctx.skip("running damage sum within 1e-9 of 1")
     wc = pd.Series({"P_RAM_Z": case["P_Z"], "P_RAM_D": case["P_D"], "d_1": case["d_1"], "d_2": case["d_2"]}).woehler_P_RAM
-    col = pd.DataFrame({"P_RAM": [r[0] for r in rows], "is_closed_hysteresis": [bool(r[1]) for r in rows],
-                        "run_index": [r[2] for r in rows], "S_min": -1.0, "S_max": 1.0})
+    npt, nh = len(pts), len(rows)
+    col = pd.DataFrame({"P_RAM": [lit["P"][i] for i in range(nh) for lit in lits],
+                        "is_closed_hysteresis": [bool(r[1]) for r in rows for _ in pts],
+                        "run_index": [r[2] for r in rows for _ in pts], "S_min": -1.0, "S_max": 1.0})
+    if pts[0][0] is not None:
+        col.index = pd.MultiIndex.from_product([range(nh), [q[0] for q in pts]], names=["hysteresis_index", "assessment_point_index"])
     with warnings.catch_warnings():
         warnings.simplefilter("ignore")
         calc = dc.DamageCalculatorPRAM(col, wc)
-        seq = _f(calc.lifetime_n_times_load_sequence)
-        cyc = _f(calc.lifetime_n_cycles)
-        inf_life = bool(np.asarray(calc.is_life_infinite).reshape(-1)[0])
-        pmax = _f(calc.P_RAM_max)
-        dcol = calc.collective["D"].tolist()
-    n1, n2, D1, D2 = lit["n1"], lit["n2"], lit["D1"], lit["D2"]
+        seqs = np.asarray(calc.lifetime_n_times_load_sequence, dtype=float).reshape(-1)
+        cycs = np.asarray(calc.lifetime_n_cycles, dtype=float).reshape(-1)
+        infs = np.asarray(calc.is_life_infinite).reshape(-1)
+        pmaxs = np.asarray(calc.P_RAM_max, dtype=float).reshape(-1)
+        dall = calc.collective["D"].tolist()
+    if not (len(seqs) == len(cycs) == len(infs) == len(pmaxs) == npt and len(dall) == nh * npt):
+        raise Violation("%d assessment point(s) but results of length %d/%d/%d/%d" % (npt, len(seqs), len(cycs), len(infs), len(pmaxs)), bucket="life:result_shape")
     closed = [r[1] for r in rows]
     mixed = all(any(c for c, r in zip(closed, [x[2] for x in rows]) if r == k) and any(not c for c, r in zip(closed, [x[2] for x in rows]) if r == k) for k in (1, 2))
     ctx.label("mixed_closed_half" if mixed else "not_mixed")
+    for j, ((label, scale), lit) in enumerate(zip(pts, lits)):
+        _check_point(case, ctx, lit, label, mixed, float(seqs[j]), float(cycs[j]), bool(infs[j]), float(pmaxs[j]), dall[j::npt])
+
+
+def _check_point(case, ctx, lit, label, mixed, seq, cyc, inf_life, pmax, dcol):
+    rows = case["rows"]
+    n1, n2, D1, D2 = lit["n1"], lit["n2"], lit["D1"], lit["D2"]
 
     def V(msg, bucket):
-        return Violation("%s [curve P_Z=%r P_D=%r d=%r/%r; D1=%r D2=%r n1=%d n2=%d]" % (msg, case["P_Z"], case["P_D"], case["d_1"], case["d_2"], D1, D2, n1, n2),
-                         bucket="life:" + bucket)
+        return Violation("%s [assessment point %r; curve P_Z=%r P_D=%r d=%r/%r; D1=%r D2=%r n1=%d n2=%d]"
+                         % (msg, label, case["P_Z"], case["P_D"], case["d_1"], case["d_2"], D1, D2, n1, n2), bucket="life:" + bucket)
 
     # per-hysteresis damage
     for i, (g, w) in enumerate(zip(dcol, lit["dam"])):
         if not (g == w or _close(g, w, 1e-12 * 20)):
-            raise V("damage of hysteresis %d (P=%r, closed=%r) is %r, literal %r" % (i, rows[i][0], rows[i][1], g, w), "damage_per_hysteresis")
+            raise V("damage of hysteresis %d (P=%r, closed=%r) is %r, literal %r" % (i, lit["P"][i], rows[i][1], g, w), "damage_per_hysteresis")
     # infinite life
-    want_pmax = max(r[0] for r in rows if r[2] == 2)
+    want_pmax = max(P for P, r in zip(lit["P"], rows) if r[2] == 2)
     if pmax != want_pmax or inf_life != (want_pmax <= case["P_D"]):
         raise V("P_RAM_max = %r / is_life_infinite = %r, expected %r / %r" % (pmax, inf_life, want_pmax, want_pmax <= case["P_D"]), "infinite_life")
 
